@@ -830,7 +830,10 @@ def _run(ctx: Ctx, corpus, boost, tmpdir):
                 ("float", "7007.5"), ("float", None), ("float", 10 ** 400), ("int", 1e20), ("float", 1e-320)]
     for base, ref in refcases:
         try:
-            m.restricted_number_type("C20R_%s_%s" % (base, re.sub(r"\W", "_", repr(ref))[:24]), base_of(base), [(">", ref)])
+            # the registry is keyed by the restrictions: reuse the name when an equal key exists (thorough tier references)
+            known = m.registered_types.get(((((">", ref),)), base_of(base), "and")) if isinstance(ref, (int, float)) and ref == ref else None
+            name = known.__name__ if known is not None else "C20R_%s_%s" % (base, re.sub(r"\W", "_", repr(ref))[:24])
+            m.restricted_number_type(name, base_of(base), [(">", ref)])
             real = {"ok": True}
         except ValueError as ex:
             real = {"ok": False} if "Expected restrictions" in str(ex) else {"err": "ValueError"}
@@ -1140,8 +1143,8 @@ def td_text_in_model(s):
     for mnum in re.finditer(r"\d+", s):
         if len(mnum.group(0)) > 15:
             return False
-    for mfrac in re.finditer(r"\.(\d+)", s):
-        if len(mfrac.group(1)) > 6:
+    for mfrac in re.finditer(r"(\d*)\.(\d+)", s):
+        if len(mfrac.group(2)) > 6 or len(mfrac.group(1)) > 9:
             return False
     return True
 
